@@ -566,6 +566,9 @@ def cmp_eval(t, rel, fields):
 
 
 def lattice_laws(prog):
+    """join / meet / choose against the order the type declares.  Both are *evaluated*, not matched: for each ordering
+    of the operands' components the path evaluator (rules/pe.py) runs partial_cmp and the operation."""
+    from .pe import PathEval, NotEval
     out = []
     for adt in (SR + "expectation::ExpectedUtility", SR + "realsemiring::RealSemiring"):
         a = prog.adts[adt]
@@ -575,56 +578,70 @@ def lattice_laws(prog):
             fs = prog.find(name=nm, self_adt=adt, impl_trait=tr, unit="rsdd-lib")
             if fs:
                 ops[nm] = fs[0]
+        pcs = [f for f in prog.find(name="partial_cmp", self_adt=adt, unit="rsdd-lib")]
+        order_note = []
+
+        def related_of(signs):
+            """'a' (a > b), 'b' (a < b), 'eq', or None when the declared order does not relate the operands"""
+            if len(pcs) == 1:
+                try:
+                    v = PathEval(prog, pcs[0], dict(zip(fields, signs)), fields, adt=adt).run()
+                    if v == ("none",):
+                        return None
+                    if v[0] == "some" and v[1][0] == "ord":
+                        return {-1: "b", 0: "eq", 1: "a"}[v[1][1]]
+                    raise NotEval("partial_cmp returns %r" % (v,))
+                except NotEval as e:
+                    if not order_note:
+                        order_note.append("partial_cmp not evaluated (%s); the componentwise order is assumed" % e)
+            if all(s < 0 for s in signs):
+                return "b"
+            if all(s > 0 for s in signs):
+                return "a"
+            if all(s == 0 for s in signs):
+                return "eq"
+            return None
+
         for nm, fn in ops.items():
             key = "%s:%s" % (adt, nm)
             errs = []
             try:
-                # the operation may delegate to another function of the same type (choose to join, both choose
-                # impls to one private helper): look through it
-                t = canon.inline_local(prog, fn.terms.ret, lambda h: h.impl_self == adt and "{closure" not in h.npath)
                 for signs in itertools.product([-1, 0, 1], repeat=len(fields)):
                     rel = dict(zip(fields, signs))
-                    res = cmp_eval(t, rel, fields)
-                    if res in ("a", "b"):
-                        res = tuple(("c", res, f) for f in fields)
-                    # the declared order (componentwise): a<b iff all <, a>b iff all >, equal iff all =
-                    related = None
-                    if all(s < 0 for s in signs):
-                        related = "b"
-                    elif all(s > 0 for s in signs):
-                        related = "a"
-                    elif all(s == 0 for s in signs):
-                        related = "eq"
-                    if related:
-                        want = related if nm in ("join", "choose") else {"a": "b", "b": "a", "eq": "eq"}[related]
-                        for f, r in zip(fields, res):
-                            side = r[1]
-                            if want == "eq":
-                                continue
-                            if side not in (want, "eq") or r[2] != f:
-                                errs.append("for a %s b (componentwise) %s returns component `%s` of %s, expected of %s"
-                                            % ({"a": ">", "b": "<"}[related], nm, f, side, want))
-                    if nm in ("join", "meet"):
-                        # commutative: swapping operands gives the same component values
-                        rel2 = {f: -s for f, s in rel.items()}
-                        res2 = cmp_eval(t, rel2, fields)
-                        for f, r1, r2 in zip(fields, res, res2):
-                            s1 = r1[1]
-                            s2 = {"a": "b", "b": "a", "eq": "eq"}[r2[1]]
-                            if s1 != s2 and rel[f] != 0:
-                                errs.append("%s is not commutative in component `%s`" % (nm, f))
-                        # each component comes from the same-named component
-                        for f, r in zip(fields, res):
+                    res = PathEval(prog, fn, rel, fields, adt=adt).run()
+                    if not (isinstance(res, tuple) and res[0] == "rec" and len(res[1]) == len(fields) and
+                            all(isinstance(r, tuple) and r[0] == "c" for r in res[1])):
+                        raise NotEval("%s returns %r" % (nm, res))
+                    comps = res[1]
+                    related = related_of(signs)
+                    if related in ("a", "b"):
+                        want = related if nm in ("join", "choose") else {"a": "b", "b": "a"}[related]
+                        for f, r in zip(fields, comps):
                             if r[2] != f:
                                 errs.append("%s takes component `%s` from `%s`" % (nm, f, r[2]))
-            except NotPoly as e:
+                            elif r[1] not in (want, "eq") and rel[f] != 0:
+                                errs.append("for a %s b in the declared order (components %s) %s returns component `%s` of %s, "
+                                            "expected of %s" % ({"a": ">", "b": "<"}[related],
+                                                                ", ".join("%s:%s" % (g, "<=>"[rel[g] + 1]) for g in fields),
+                                                                nm, f, r[1], want))
+                    if nm in ("join", "meet"):
+                        rel2 = {f: -s for f, s in rel.items()}
+                        res2 = PathEval(prog, fn, rel2, fields, adt=adt).run()
+                        for f, r1, r2 in zip(fields, comps, res2[1]):
+                            s2 = {"a": "b", "b": "a", "eq": "eq"}[r2[1]]
+                            if r1[1] != s2 and rel[f] != 0:
+                                errs.append("%s is not commutative in component `%s`" % (nm, f))
+                            if r1[2] != f:
+                                errs.append("%s takes component `%s` from `%s`" % (nm, f, r1[2]))
+            except NotEval as e:
                 out.append(inst("LAW", key, UNDECIDED, fn, None, str(e)))
                 continue
             out.append(inst("LAW", key, VIOLATION if errs else OK, fn, None,
                             "; ".join(sorted(set(errs))[:3]) if errs else
-                            "%s returns the %s whenever the order relates the operands%s" % (
+                            "%s returns the %s whenever the declared order relates the operands%s%s" % (
                                 nm, "larger" if nm != "meet" else "smaller",
-                                "; commutative, componentwise" if nm != "choose" else "")))
+                                "; commutative, componentwise" if nm != "choose" else "",
+                                (" [" + order_note[0] + "]") if order_note else "")))
     return out
 
 
